@@ -347,7 +347,7 @@ def check_records(ctx, cases_recs, tag: str):
             seen.add(key)
             n_viol += 1
             stable = key if key.startswith(("scalars-file:", "output-folder:")) else f"output-folder:{key}"
-            reported = ctx.cov.setdefault("violation_keys", {})
+            reported = ctx.cov.setdefault("problem_keys_seen", {})
             reported[stable] = reported.get(stable, 0) + 1
             if reported[stable] > 3:
                 continue            # the first three inputs of a key are reported (and kept in the corpus); the rest are counted
